@@ -186,6 +186,9 @@ def check_step(model, pcls, K, d, st, I, second, out, aliased=False):
            lambda: "depth = %s, expected h+1" % (getattr(dep, "sym", dep),))
         ind = c.f.get("index")
         exp = arity * (st.i.sym - 1) + j + 1
+        if isinstance(ind, A.Num) and "npint" in repr(ind.raw):
+            ob("R03-INDEX", False, "child %d .index is an unbounded Python integer" % j,
+               "the index is taken from a numpy integer array (fixed 64-bit width): K*i wraps around once the tree is deeper than 63/log2(K) levels")
         ob("R03-INDEX", _num(ind) and A.equal_terms(A._sym(ind), exp), "child %d .index" % j,
            lambda: "index = %s, expected K(i-1)+%d = %s" % (getattr(ind, "sym", ind), j + 1, sp.expand(exp)))
         ob("R03-LINK", c.f.get("children") is None, "child %d starts as a leaf" % j, lambda: "children = %r" % (c.f.get("children"),))
@@ -401,6 +404,9 @@ def check_init(model, pcls, K, d, res, out):
     ob("R02-FRAME", not mut, "__init__ does not modify the user's domain", "%d in-place store(s)" % len(mut))
 
 
+PATH_BUDGET = 160
+
+
 def _one_config(args):
     model, pcls, K, d, two_step = args
     out = []
@@ -411,22 +417,37 @@ def _one_config(args):
     for newlayer, aliased in variants:
         # the second (cousin) expansion is explored after a new-layer expansion only
         ts = two_step and newlayer
-        for oracle, res in A.explore(lambda o: run_steps(model, pcls, K, d, newlayer, o, ts, aliased)):
-            paths += 1
-            if first:
-                check_init(model, pcls, K, d, res, out)
-                first = False
-            for n, st in enumerate(res.steps):
-                check_step(model, pcls, K, d, st, res.I, n == 1, out, aliased)
-            if len(samples) < 1 and res.steps and res.steps[0].crash is None:
-                ch = res.steps[0].parent.f.get("children") or []
-                try:
-                    samples.append(dict(
-                        cls=pcls, K=K, d=d, newlayer=newlayer, oracle=list(oracle),
-                        children=[[[str(A._sym(iv[0])), str(A._sym(iv[1]))] for iv in c.f["domain"]] for c in ch][:4],
-                        events=[e[0] for e in res.steps[0].events]))
-                except Exception:
-                    pass
+        # the cousin (second) expansion multiplies the paths; when make_children branches so often that one variant exceeds
+        # the budget, the variant is re-explored with the single step only (the one-step lemma is what the rules need)
+        while True:
+            mark = len(out)
+            vpaths = 0
+            overflow = False
+            for oracle, res in A.explore(lambda o: run_steps(model, pcls, K, d, newlayer, o, ts, aliased)):
+                vpaths += 1
+                if ts and vpaths > PATH_BUDGET:
+                    overflow = True
+                    break
+                if first:
+                    check_init(model, pcls, K, d, res, out)
+                    first = False
+                for n, st in enumerate(res.steps):
+                    check_step(model, pcls, K, d, st, res.I, n == 1, out, aliased)
+                if len(samples) < 1 and res.steps and res.steps[0].crash is None:
+                    ch = res.steps[0].parent.f.get("children") or []
+                    try:
+                        samples.append(dict(
+                            cls=pcls, K=K, d=d, newlayer=newlayer, oracle=list(oracle),
+                            children=[[[str(A._sym(iv[0])), str(A._sym(iv[1]))] for iv in c.f["domain"]] for c in ch][:4],
+                            events=[e[0] for e in res.steps[0].events]))
+                    except Exception:
+                        pass
+            if overflow:
+                del out[mark:]
+                ts = False
+                continue
+            paths += vpaths
+            break
     return out, samples, paths
 
 
@@ -437,6 +458,14 @@ def _worker(args):
     pcls, K, d, two_step = args
     try:
         return ("ok",) + _one_config((_MODEL, pcls, K, d, two_step))
+    except A.Unsupported as ex:
+        # make_children uses a construct the abstract interpreter has no sound model for: none of the step obligations of
+        # this class can be discharged (a violation naming the construct - not an analysis failure)
+        cfg = "%s K=%s d=%s" % (pcls, K, d)
+        recs = [dict(rule=r, ok=False, cls=pcls, cfg=cfg, construct="one abstract step of make_children", method="make_children",
+                     detail="obligation not discharged: make_children cannot be interpreted (%s)" % ex)
+                for r in ("R02-TOTAL", "R03-STEP", "R14-RNG", "R16-GEOM")]
+        return ("ok", recs, [], 0)
     except AnalysisError as ex:
         return ("err", "%s K=%s d=%s: %s" % (pcls, K, d, ex))
     except Exception as ex:  # engine failure: reported as ANALYSIS-ERROR by the caller
